@@ -477,6 +477,177 @@ impl Case {
     }
 }
 
+static TEARDOWN_SEQ: std::sync::Mutex<Vec<String>> = std::sync::Mutex::new(Vec::new());
+
+impl Case {
+    /// Release role r until it is idle (or lost / bound reached); true when idle.
+    fn run_idle(&mut self, r: usize, max: usize) -> bool {
+        for _ in 0..max {
+            match ctl::whereis(r) {
+                Where::Idle => return true,
+                Where::Parked(p) => {
+                    if let Arr::Quarantined | Arr::Hang = self.release(r, p.site) {
+                        return false;
+                    }
+                }
+                _ => return false,
+            }
+        }
+        ctl::whereis(r) == Where::Idle
+    }
+
+    /// Release role r until it is parked at `site`; false if it gets idle / lost first.
+    fn run_to(&mut self, r: usize, site: &str, max: usize) -> bool {
+        for _ in 0..max {
+            match ctl::whereis(r) {
+                Where::Parked(p) if p.site == site => return true,
+                Where::Parked(p) => {
+                    if let Arr::Quarantined | Arr::Hang = self.release(r, p.site) {
+                        return false;
+                    }
+                }
+                _ => return false,
+            }
+        }
+        false
+    }
+
+    /// One member of the teardown family: a remote scheduler (a waker's wake_by_ref, or Task::cancel of a JoinHandle
+    /// dropped on thread J) is parked at the k-th hook site of its call - the sites and their order are whatever
+    /// the REAL code reports, nothing is taken from the model - then the home thread runs its teardown commands to
+    /// the end or until it blocks in wait_for_scheduling (the correct outcome); the caller then finishes every call
+    /// round-robin. If the home thread freed Shared, the scheduler is stopped (quarantined) and reported at the first
+    /// site that announces a use of Shared. Returns the sites the scheduler was parked at.
+    fn teardown(&mut self, spec: &Value) -> Vec<String> {
+        let variant = spec["variant"].as_str().unwrap_or("wake");
+        let park = spec["park"].as_u64().unwrap_or(u64::MAX);
+        let mut seq = vec![];
+        // preparation (best effort: on a tree whose sites differ the member is simply shorter)
+        let sched = match variant {
+            "hdrop" => 1,
+            "fullq" => {
+                // fill the sync queue (capacity 1): H is inside tick before the task runs, W1 pushes, H polls
+                // (Pending, SCHEDULED cleared), the id stays queued; the second waker then finds the queue full
+                *lock(&self.world.fallback) = Outcome::Pend;
+                self.command(0, "tick", Cmd::Tick);
+                self.run_to(0, "exec.state.unschedule", 20);
+                self.command(2, "wake", Cmd::Wake);
+                self.run_idle(2, 60);
+                self.run_idle(0, 60);
+                3
+            }
+            _ => 2,
+        };
+        if sched >= self.roles.len() {
+            return seq;
+        }
+        let (name, cmd) = if sched == 1 { ("hdrop", Cmd::HDrop) } else { ("wake", Cmd::Wake) };
+        if sched == 1 {
+            self.handle_held = false;
+        }
+        let mut a = self.command(sched, name, cmd);
+        let mut k = 0;
+        loop {
+            match a {
+                Arr::Site(s) => {
+                    seq.push(s.to_string());
+                    if k >= park {
+                        break;
+                    }
+                    k += 1;
+                    // a scheduler spinning on a full queue never gets idle by itself: the probe stops as soon as
+                    // a pair of consecutive sites repeats
+                    let n = seq.len();
+                    if n >= 4 && (0..n - 3).any(|i| seq[i] == seq[n - 2] && seq[i + 1] == seq[n - 1]) {
+                        seq.truncate(n - 2);
+                        break;
+                    }
+                    if n > 60 {
+                        break;
+                    }
+                    a = self.release(sched, s);
+                }
+                _ => break,
+            }
+        }
+        if park == u64::MAX {
+            return seq;
+        }
+        // the home thread tears down while the scheduler stays parked
+        for h in spec["hseq"].as_array().cloned().unwrap_or_default() {
+            if ctl::whereis(0) != Where::Idle || self.roles[0].lost {
+                break;
+            }
+            match h.as_str().unwrap_or("") {
+                "tick" => {
+                    *lock(&self.world.fallback) = Outcome::Ready;
+                    lock(&self.world.script).clear();
+                    self.command(0, "tick", Cmd::Tick);
+                }
+                "clear" => {
+                    self.command(0, "clear", Cmd::Clear);
+                }
+                _ => {
+                    self.exec_dropped = true;
+                    self.command(0, "execdrop", Cmd::ExecDrop);
+                }
+            }
+            // run H alone until it is idle or keeps returning to the same spin site (blocked = correct)
+            let mut same = 0;
+            for _ in 0..300 {
+                match ctl::whereis(0) {
+                    Where::Parked(p) => {
+                        let before = p.site;
+                        let arr = self.release(0, before);
+                        if matches!(arr, Arr::Site(s) if s == before) {
+                            same += 1;
+                            if same >= 6 {
+                                break;
+                            }
+                        } else {
+                            same = 0;
+                        }
+                    }
+                    _ => break,
+                }
+            }
+        }
+        seq
+    }
+}
+
+/// The teardown family, generated from a probe of the real code (no input file).
+fn teardown_family(rep: &mut Report) {
+    let mut members = 0u64;
+    let mut lists = serde_json::Map::new();
+    let variants = [("wake", "hot", 1u64, 2u64), ("hdrop", "cold", 0, 2), ("fullq", "hot", 2, 1)];
+    let mut idx = 0u64;
+    for (variant, setup, nw, cap) in variants {
+        let probe = json!({"setup": setup, "nw": nw, "cap": cap, "steps": [],
+                           "teardown": {"variant": variant, "hseq": []}});
+        lock(&TEARDOWN_SEQ).clear();
+        rep.cases += 1;
+        eprintln!("@case {idx}");
+        run_case(&probe, idx, rep);
+        idx += 1;
+        let seq = lock(&TEARDOWN_SEQ).clone();
+        lists.insert(variant.to_string(), json!(seq));
+        for k in 0..seq.len() {
+            for hseq in [json!(["execdrop"]), json!(["tick", "execdrop"]), json!(["clear", "execdrop"])] {
+                let case = json!({"setup": setup, "nw": nw, "cap": cap, "steps": [],
+                                  "teardown": {"variant": variant, "park": k, "site": seq[k], "hseq": hseq}});
+                rep.cases += 1;
+                eprintln!("@case {idx}");
+                run_case(&case, idx, rep);
+                idx += 1;
+                members += 1;
+            }
+        }
+    }
+    rep.set("teardown_members", json!(members));
+    rep.set("teardown_sites", Value::Object(lists));
+}
+
 fn arr_name(a: &Arr) -> &'static str {
     match a {
         Arr::Site(s) => s,
@@ -605,6 +776,15 @@ fn run_case(case: &Value, idx: u64, rep: &mut Report) {
         c.command(2 + i, "init", Cmd::InitW(w));
     }
     let polls0 = c.world.t(1).polls.load(SeqCst);
+    if !case["teardown"].is_null() {
+        ctl::set_all_remote_points(true);
+        ctl::set_active(true);
+        let seq = c.teardown(&case["teardown"]);
+        lock(&TEARDOWN_SEQ).clone_from(&seq);
+        let snap = c.snapshot();
+        finish_case(c, case, idx, rep, vec![], snap);
+        return;
+    }
     ctl::set_active(true);
     // ---- the schedule
     let steps = case["steps"].as_array().unwrap();
@@ -1084,6 +1264,16 @@ fn main() {
         return;
     }
     ctl::install();
+    if args.get(1).map(|a| a == "--teardown").unwrap_or(false) {
+        teardown_family(&mut rep);
+        rep.set("actions_released", json!(STEPS.load(SeqCst)));
+        rep.set("threads_quarantined", json!(LOST.load(SeqCst)));
+        rep.set("cases_abandoned", json!(ABANDONED.load(SeqCst)));
+        rep.set("cases_skipped", json!(0));
+        rep.set("sites_released", json!(*lock(&SITES)));
+        rep.finish();
+        std::process::exit(0);
+    }
     for (i, case) in cases_from_arg().enumerate() {
         if OVER.load(SeqCst) >= MAX_ABANDONED {
             SKIPPED.fetch_add(1, SeqCst);
